@@ -1679,7 +1679,10 @@ class Translator:
         b = self.lookup_binding(keys)
         if b is not None:
             obj = self.expr(a0)
-            obj = self.addr(obj) if self.is_glvalue(self.skip_wrappers(a0)) else obj
+            if self.strip_keep_mat(a0).get('kind') == 'MaterializeTemporaryExpr':
+                obj = self.temp_addr(a0, obj)
+            elif self.is_glvalue(self.skip_wrappers(a0)):
+                obj = self.addr(obj)
             return self.apply_binding(b, n, obj, None, argnodes[1:])
         # translate a /repo operator
         r = callee['referencedDecl']
